@@ -518,6 +518,8 @@ PyObject* base_gemm(PyObject *self, PyObject *args, PyObject *kwrds)
   k = (transA == 'N') ? X_NCOLS(A) : X_NROWS(A);
   if (k != ((transB == 'N') ? X_NROWS(B) : X_NCOLS(B)))
     PY_ERR_TYPE("dimensions of A and B do not match");
+  if (m != X_NROWS(C) || n != X_NCOLS(C))
+    PY_ERR_TYPE("invalid dimensions for C");
 
   if (m == 0 || n == 0) return Py_BuildValue("");
 
@@ -780,6 +782,8 @@ static PyObject* base_syrk(PyObject *self, PyObject *args, PyObject *kwrds)
 
   int n = (trans == 'N') ? X_NROWS(A) : X_NCOLS(A);
   int k = (trans == 'N') ? X_NCOLS(A) : X_NROWS(A);
+  if (X_NROWS(C) != n || X_NCOLS(C) != n)
+    PY_ERR_TYPE("invalid dimensions for C");
   if (n == 0) return Py_BuildValue("");
 
   if (ao && convert_num[id](&a, ao, 1, 0)) err_type("alpha");
